@@ -45,6 +45,14 @@ Theorem C03_decode_agree_canonical_iff : forall ld bs c t, leaf_ok ld -> cwf ld 
 Proof. exact decode_agree_canonical_iff. Qed.
 Print Assumptions C03_decode_agree_canonical_iff.
 
+(* file level, bytes: a canonical file (concatenation of canonical top-level boxes) yields the same sequence of boxes,
+   hence the same start positions, from the DecodeFile loop (until io.EOF) and the DecodeFileSR loop (until no bytes remain);
+   together with C03_file_agree (same assembly for the same box sequence) this is the file-level agreement *)
+Theorem C03_file_boxes_agree : forall ld, leaf_ok ld -> forall cs, Forall (cwf ld) cs -> (lenN (cencs cs) < 4294967296)%N ->
+  fst (file_sr ld (cencs cs)) = Ok (map erase cs) /\ fst (file_r ld (cencs cs)) = Ok (map erase cs).
+Proof. exact file_boxes_agree. Qed.
+Print Assumptions C03_file_boxes_agree.
+
 (* the leaves of the correspondence (mdat, free/skip, unknown boxes) are canonical leaves *)
 Theorem C03_std_canon_leaf : forall nm p, std_canon_ok nm p -> canon_leaf std_leaves nm p.
 Proof. exact std_canon_leaf. Qed.
